@@ -46,6 +46,8 @@ def cases(tier, seed):
                 for tl in range(len(ts_lists(not thorough))):
                     yield {'served': served, 'sup': sup, 'n': 2, 'a1': a, 'l1': tl, 'full': thorough}
             yield {'served': served, 'sup': sup, 'n': 34}
+            for a in range(3):
+                yield {'served': served, 'sup': sup, 'n': 1, 'a1': a, 'pre_scu': True}
 
 
 def _requests(case, thorough_lists):
@@ -81,7 +83,12 @@ def run_case(case):
     served = [x for i, x in enumerate((A, B)) if case['served'] >> i & 1]
     sup = [t for i, t in enumerate(TS) if case['sup'] >> i & 1]
     svcs = {s: assoc.Recorder('svc-' + s, [s]) for s in served}
-    ae = assoc.make_ae('SCP', sup, 65536, [svcs[s] for s in served])
+    ae = assoc.make_ae('SCP', sup, 65536, [])
+    if case.get('pre_scu'):
+        # the same classes (and an unserved one) were configured as SCU first
+        ae.add_scu(assoc.Recorder('as-scu', [A, B, U]))
+    for s in served:
+        ae.add_scp(svcs[s])
     viol = []
     nreq = 0
     if 'req' in case:
@@ -171,7 +178,7 @@ def run_case(case):
             break
         last = req
     return {'viol': viol[:20], 'case': dict(case, req=[list(r) for r in last]) if viol and nreq else (case if viol else None),
-            'key': (case['served'], case['sup'], case['n'], case.get('a1'), case.get('l1')),
+            'key': (case['served'], case['sup'], case['n'], case.get('a1'), case.get('l1'), case.get('pre_scu')),
             'count': {'accept_calls': nreq},
             'sample': {'served': served, 'supported': sup, 'request': ctxs} if case['n'] == 2 and case['sup'] == 5 and case['served'] == 3 and case['a1'] == 0 and case['l1'] == 4 else None}
 
